@@ -47,6 +47,7 @@ type c20Script struct {
 	www          []string // WWW-Authenticate values of the first response
 	firstBody    string
 	rejectSecond bool // answer the authenticated request with 401 again
+	proxyAuth    bool // repeat the challenges as Proxy-Authenticate
 }
 
 type c20Origin struct {
@@ -86,6 +87,9 @@ func (o *c20Origin) ServeHTTP(w http.ResponseWriter, rq *http.Request) {
 		}
 		for _, v := range sc.www {
 			w.Header().Add("WWW-Authenticate", v)
+			if sc.proxyAuth {
+				w.Header().Add("Proxy-Authenticate", v)
+			}
 		}
 		w.Header().Set("Content-Type", "text/plain")
 		w.WriteHeader(sc.firstStatus)
@@ -187,7 +191,7 @@ var c20Witnesses = []c20Witness{
 }
 
 // c20Exchange generates one case, runs it on the real client and records the verdicts.
-func c20Exchange(t *testing.T, s *verifh.Session, r *rand.Rand, o *c20Origin, mode c20Run, known map[string]int, count func(string)) {
+func c20Exchange(t *testing.T, s *verifh.Session, j *c20Judge, r *rand.Rand, o *c20Origin, mode c20Run, known map[string]int, count func(string)) {
 	// ---- what the origin will do
 	var sc c20Script
 	var gen *c20Chal
@@ -195,27 +199,34 @@ func c20Exchange(t *testing.T, s *verifh.Session, r *rand.Rand, o *c20Origin, mo
 	switch k := r.Intn(20); {
 	case k < 13:
 		sc.firstStatus = 401
-		g := c20GenChallenge(r, true)
+		g := c20GenHeader(r, true)
 		gen = &g
-		sc.www = []string{g.raw}
+		sc.www = append([]string(nil), g.lines...)
+		for tg := range g.tags {
+			count("tag:" + tg)
+		}
 	case k == 13:
 		sc.firstStatus = 401
 		switch r.Intn(5) {
 		case 0: // no challenge at all
 		case 1:
-			sc.www = []string{verifh.Pick(r, []string{"Basic realm=\"x\"", "Bearer", "Negotiate", "NTLM"})}
+			sc.www = []string{verifh.Pick(r, c20OtherChallenges)}
 		case 2:
 			g := c20GenChallenge(r, true)
+			gen = &g
 			sc.www = []string{"Basic realm=\"fallback\"", g.raw}
 		case 3:
-			sc.www = []string{c20Mutate(r, c20GenChallenge(r, true).raw)}
+			sc.www = []string{c20Mutate(r, c20GenHeader(r, true).raw)}
 		default:
 			sc.www = []string{verifh.Pick(r, c20Junk)}
 		}
 	case k < 19:
 		sc.firstStatus = verifh.Pick(r, []int{200, 200, 201, 204, 400, 403, 404, 407, 402, 500, 503, 400})
 		if r.Intn(2) == 0 {
-			sc.www = []string{c20GenChallenge(r, true).raw} // a challenge on a non-401 must be ignored
+			sc.www = c20GenHeader(r, true).lines // a challenge on a non-401 must be ignored
+			if sc.firstStatus == 407 {
+				sc.proxyAuth = true // ... and a 407 is not answered with Authorization either
+			}
 		}
 	default:
 		sc.firstStatus = 0
@@ -246,6 +257,11 @@ func c20Exchange(t *testing.T, s *verifh.Session, r *rand.Rand, o *c20Origin, mo
 	pass, _ := c20Text(r, true)
 	for strings.ContainsAny(user, "\r\n\x00") || !c20HeaderSafe(user) {
 		user, ku = c20Text(r, false)
+	}
+	if r.Intn(30) == 0 {
+		// a user name no field value can carry: the transport must refuse the authorized request
+		// (unless the name is sent hashed), never send something else
+		user, ku = verifh.RandBytes(r, 1+r.Intn(5), "ab")+verifh.Pick(r, []string{"\r\nX-Injected: 1", "\x00", "\x7f", "\n", "\x1f"}), "control"
 	}
 	method := verifh.Pick(r, []string{"GET", "GET", "POST", "POST", "PUT", "PATCH", "DELETE", "HEAD", "OPTIONS"})
 	uri := verifh.Pick(r, c20URIs)
@@ -350,6 +366,9 @@ func c20Exchange(t *testing.T, s *verifh.Session, r *rand.Rand, o *c20Origin, mo
 	if len(sc.www) > 0 {
 		www = sc.www[0]
 	}
+	if len(sc.www) > 1 {
+		count("www-lines>1")
+	}
 	status, errFlag := sc.firstStatus, "0"
 	if status == 0 {
 		status, errFlag = 401, "1" // transport error: no response at all
@@ -361,8 +380,10 @@ func c20Exchange(t *testing.T, s *verifh.Session, r *rand.Rand, o *c20Origin, mo
 	if mode.identity {
 		lane = "c20handle"
 	}
-	line := fmt.Sprintf("%s %d %s %s %s %s %s %s %s %s %x", lane, status, errFlag, verifh.Hex(www), verifh.Hex(user), verifh.Hex(pass),
+	tail := fmt.Sprintf("%s %s %s %s %s %s %x", verifh.Hex(user), verifh.Hex(pass),
 		verifh.Hex(method), verifh.Hex(uri), bkind, verifh.Hex(string(seen[0].body)), rnd)
+	line := fmt.Sprintf("%s2 %d %s %s %s", lane, status, errFlag, verifh.HexList(sc.www), tail)
+	legacy := fmt.Sprintf("%s %d %s %s %s", lane, status, errFlag, verifh.Hex(www), tail) // the code as found reads the first line only
 	// ---- what the implementation did
 	var impl string
 	derr := c20ErrName(resp.Err)
@@ -513,8 +534,8 @@ func c20Exchange(t *testing.T, s *verifh.Session, r *rand.Rand, o *c20Origin, mo
 			}
 			known["sess"]++
 			impl = "err qop"
-		case gen == nil:
-			// answered something that was not generated as a challenge: judged by the model only
+		case gen == nil || gen.broken || !c20Answerable(gen.is):
+			// answered something that was not generated as an answerable challenge: judged by the model only
 		default:
 			x := c20Ctx{is: gen.is, method: seen[0].method, uri: seen[0].uri, user: user, pass: pass, body: second.body}
 			good, vwhy := c20Verify(hf, x, hdr)
@@ -574,7 +595,8 @@ func c20Exchange(t *testing.T, s *verifh.Session, r *rand.Rand, o *c20Origin, mo
 		s.Observe(id, ok, class, false, human, why)
 		return
 	}
-	s.Case(line, impl, ok, class, len(seen) == 2 || strings.HasPrefix(impl, "err "), human)
+	_ = class
+	j.add(c20Pending{line: line, legacy: legacy, impl: impl, ok: ok, nontrivial: len(seen) == 2 || strings.HasPrefix(impl, "err "), human: human})
 }
 
 func c20HeaderSafe(v string) bool {
@@ -618,17 +640,20 @@ func TestVerif_C20_handle(t *testing.T) {
 	r := s.Rand()
 	cnt, count := c20Counter(s)
 	known := map[string]int{}
+	j := &c20Judge{s: s}
 	n := verifh.N(1500, 30000)
-	must := []string{"outcome:untouched", "outcome:resend", "outcome:err bad-challenge", "outcome:err alg", "outcome:err qop", "prior-middleware-error", "status:0", "status:401", "status:200", "verifier-accepted", "body:multipart", "body:stream", "body:big"}
+	must := []string{"outcome:untouched", "outcome:resend", "outcome:err bad-challenge", "outcome:err alg", "outcome:err qop", "outcome:err invalid-header", "prior-middleware-error", "status:0", "status:401", "status:200", "status:407", "verifier-accepted", "body:multipart", "body:stream", "body:big",
+		"tag:multi", "tag:multi-line", "tag:several-digest", "www-lines>1"}
 	for i := range c20Witnesses {
-		c20Exchange(t, s, r, o, c20Run{identity: true, fixed: &c20Witnesses[i]}, known, count)
+		c20Exchange(t, s, j, r, o, c20Run{identity: true, fixed: &c20Witnesses[i]}, known, count)
 	}
 	for i := 0; i < n || !c20All(cnt, must); i++ {
 		if i > 20*n {
 			t.Fatalf("declared buckets not reached: %v", cnt)
 		}
-		c20Exchange(t, s, r, o, c20Run{identity: true}, known, count)
+		c20Exchange(t, s, j, r, o, c20Run{identity: true}, known, count)
 	}
+	j.flush()
 	s.Finish()
 }
 
@@ -647,6 +672,7 @@ func TestVerif_C20_e2e(t *testing.T) {
 	r := s.Rand()
 	cnt, count := c20Counter(s)
 	known := map[string]int{}
+	j := &c20Judge{s: s}
 	for _, h2 := range []bool{false, true} {
 		o := c20NewOrigin(h2)
 		n := verifh.N(900, 20000)
@@ -657,16 +683,17 @@ func TestVerif_C20_e2e(t *testing.T) {
 		key := map[bool]string{false: "h1:", true: "h2:"}[h2]
 		must := []string{key + "outcome:untouched", key + "outcome:resend", key + "verifier-accepted", key + "outcome:err bad-challenge"}
 		for i := range c20Witnesses {
-			c20Exchange(t, s, r, o, c20Run{h2: h2, fixed: &c20Witnesses[i]}, known, tagc)
+			c20Exchange(t, s, j, r, o, c20Run{h2: h2, fixed: &c20Witnesses[i]}, known, tagc)
 		}
 		for i := 0; i < n || !c20All(cnt, must); i++ {
 			if i > 20*n {
 				t.Fatalf("declared buckets not reached: %v", cnt)
 			}
-			c20Exchange(t, s, r, o, c20Run{h2: h2}, known, tagc)
+			c20Exchange(t, s, j, r, o, c20Run{h2: h2}, known, tagc)
 		}
 		o.srv.Close()
 	}
+	j.flush()
 	s.Finish()
 }
 
